@@ -393,14 +393,14 @@ open Proofs.DkgCommute Proofs.DkgAgree in
     of `OwnNet` (`hvec`, `hshare` and the `RoundOK'` entries of the dealer's messages) hold for the dealer's own
     emission -/
 theorem receiver_accepts_dealer_emission (size threshold dealer rcv : Nat) (hne : rcv ≠ dealer) (hr : rcv < size)
-    (a : List Nat) (L : OpsLaws O size threshold a) (ct : Bool) (t : St O)
+    (a : List Nat) (L : OpsLaws O size threshold a) (hx : O.polyEval a (rcv + 1) ≠ 0) (ct : Bool) (t : St O)
     (ht : CfgCT (fresh O size threshold rcv dealer) ct t) :
     classify t (.bcast dealer (tagVerifVec :: O.vecBytes a)) = .vec (O.vecBytes a) ∧
     AllowedK (honestOf size threshold a L rcv hr) t (.vec (O.vecBytes a)) ∧
     classify t (.priv dealer (tagShare :: O.writeScalar (O.polyEval a (rcv + 1)))) =
       .share (tagShare :: O.writeScalar (O.polyEval a (rcv + 1))) ∧
     AllowedK (honestOf size threshold a L rcv hr) t (.share (tagShare :: O.writeScalar (O.polyEval a (rcv + 1)))) :=
-  emission_allowed size threshold dealer rcv hne hr a L ct t ht
+  emission_allowed size threshold dealer rcv hne hr a L hx ct t ht
 
 open Proofs.DkgCommute Proofs.DkgAgree in
 /-- the broadcasts of `A` an instance of another dealer ignores: everything but `A`'s complaint against that dealer -/
@@ -626,7 +626,7 @@ example :
 open Proofs.DkgAgree in
 /-- the laws are satisfiable: the toy record in which `Start` succeeds meets them for its polynomial -/
 example : OpsLaws toyJ 2 1 [1] := by
-  refine ⟨?_, rfl, fun _ => ?_, fun _ => rfl, fun _ _ => rfl⟩
+  refine ⟨?_, rfl, fun _ => ?_, fun _ _ => rfl, fun _ _ => rfl⟩
   · show (List.replicate (96 * 2) (0 : UInt8)).length = verifVectorSize * (1 + 1)
     rw [List.length_replicate]; rfl
   · show (List.replicate 32 (0 : UInt8)).length = shareSize
